@@ -211,6 +211,98 @@ theorem horner1Code_eq_at_pole_iff {p m : Nat} (G : SS (Fin 1) (Fin m) (Fin p) K
     exact absurd this (by simp)
   · intro h; rw [h]; rfl
 
+/-- off its pole a first-order system has the finite value `c (x - a)⁻¹ b + d`, **however close
+`x` is to the pole**: the only point without a finite value is `x = a` itself. -/
+theorem ss_1state_off_pole {p m : Nat} (G : SS (Fin 1) (Fin m) (Fin p) K) (x : K)
+    (h : x ≠ G.A 0 0) (i : Fin p) (j : Fin m) :
+    ssHorner G x i j = .fin (G.C i 0 / (x - G.A 0 0) * G.B 0 j + G.D i j) := by
+  show horner1 G x i j = _
+  unfold horner1
+  rw [if_neg (sub_ne_zero.mpr h)]
+  rfl
+
+/-- a pole test that is exact is the model … -/
+theorem horner1Near_exact {p m : Nat} (near : K → K → Bool) (hn : ∀ x a, near x a = true ↔ x = a)
+    (G : SS (Fin 1) (Fin m) (Fin p) K) (x : K) : horner1Near near G x = horner1 G x := by
+  unfold horner1Near horner1
+  by_cases h : x = G.A 0 0
+  · rw [if_pos ((hn _ _).mpr h), if_pos (sub_eq_zero.mpr h), h]
+  · rw [if_neg (fun hh => h ((hn _ _).mp hh)), if_neg (sub_ne_zero.mpr h)]
+
+/-- … and one that is not (`np.isclose(x, a)`: the seeded change C04-m5) changes **every** entry at
+**every** point that passes the test without being the pole: the model has a finite value there,
+the variant has none. -/
+theorem horner1Near_changes {p m : Nat} (near : K → K → Bool)
+    (G : SS (Fin 1) (Fin m) (Fin p) K) (x : K) (hnear : near x (G.A 0 0) = true)
+    (hx : x ≠ G.A 0 0) (i : Fin p) (j : Fin m) :
+    (∃ z, horner1 G x i j = .fin z) ∧ ¬ ∃ z, horner1Near near G x i j = .fin z := by
+  constructor
+  · exact ⟨_, ss_1state_off_pole G x hx i j⟩
+  · rintro ⟨z, hz⟩
+    unfold horner1Near at hz
+    rw [if_pos hnear] at hz
+    simp only [Matrix.of_apply, poleVal] at hz
+    split at hz <;> exact absurd hz (by simp)
+
+/-- non-vacuity: `ss([[1]],[[1]],[[1]],[[0]])` at `x = 1 + 1/1024` with "near = within 1/100":
+the model answers `1024`, the variant `inf`. -/
+example :
+    let G : SS (Fin 1) (Fin 1) (Fin 1) ℚ := ⟨!![1], !![1], !![1], !![0]⟩
+    let near : ℚ → ℚ → Bool := fun x a => decide (|x - a| ≤ 1 / 100)
+    horner1 G (1 + 1 / 1024) 0 0 = .fin 1024 ∧ horner1Near near G (1 + 1 / 1024) 0 0 = .inf := by
+  decide +kernel
+
+/-! ### histories: the answers of one object do not depend on what it was asked before -/
+
+/-- an object whose queries are observers holds the same data after every history … -/
+theorem hist_state {S Q A : Type} (ans : S → Q → A) (s : S) (qs : List Q) :
+    (runHist (observe ans) s qs).1 = s := by
+  induction qs with
+  | nil => rfl
+  | cons q qs ih => simpa [runHist, observe] using ih
+
+/-- … and its answers are the stand-alone answers, query by query: what `sys(x)`,
+`frequency_response`, `dcgain`, `poles()`, `zeros()` return never depends on the queries made
+before on the same object (the correspondence check runs every step of a generated history against
+the stand-alone model answer). -/
+theorem hist_answers {S Q A : Type} (ans : S → Q → A) (s : S) (qs : List Q) :
+    (runHist (observe ans) s qs).2 = qs.map (ans s) := by
+  induction qs with
+  | nil => rfl
+  | cons q qs ih => simpa [runHist, observe] using ih
+
+/-- the answer to `q` after any prefix and before any suffix of other queries. -/
+theorem hist_answer_indep {S Q A : Type} (ans : S → Q → A) (s : S) (pre post : List Q) (q : Q) :
+    (runHist (observe ans) s (pre ++ q :: post)).2[pre.length]? = some (ans s q) := by
+  rw [hist_answers]
+  simp
+
+/-- the value queries of this property on an LTI object: after any history the object is the
+system it was built from and the k-th answer is the model's answer to the k-th query. -/
+theorem hist_queries (E : Env K) (L : LTI K) (qs : List (Query K)) :
+    runHist (observe (answerOf E)) L qs = (L, qs.map (answerOf E L)) :=
+  Prod.ext (hist_state _ _ _) (hist_answers _ _ _)
+
+/-- a step that is *not* an observer (the seeded change C04-m4: `poles()` lets LAPACK reduce a
+column-major `A` in place): the inspection itself still answers correctly, every later query is
+answered for the transformed data `f s`. -/
+theorem hist_inplace_changes {S Q A : Type} (f : S → S) (insp : Q → Bool) (ans : S → Q → A)
+    (s : S) (q₀ q : Q) (h₀ : insp q₀ = true) (h : insp q = false) :
+    (runHist (stepInplace f insp ans) s [q₀, q]).2 = [ans s q₀, ans (f s) q] ∧
+    (runHist (stepInplace f insp ans) s [q₀, q]).1 = f s := by
+  simp [runHist, stepInplace, h₀, h]
+
+/-- non-vacuity: `1/(s+1)` asked for its value at `0`, `1`, `0` again: `1`, `1/2`, `1`; and
+with a step that halves the numerator in place whenever the point `1` is asked for: `1`, `1/2`,
+then `1/2` for the value at `0`. -/
+example :
+    let e : Fin 1 → Fin 1 → Frac ℚ := fun _ _ => ⟨[1], [1, 1]⟩
+    let ans : (Fin 1 → Fin 1 → Frac ℚ) → ℚ → IVal ℚ := fun e x => tfHorner e x 0 0
+    (runHist (observe ans) e [0, 1, 0]).2 = [.fin 1, .fin (1 / 2), .fin 1] ∧
+    (runHist (stepInplace (fun e i j => ⟨[1 / 2], (e i j).den⟩) (fun x => decide (x = 1)) ans) e
+      [0, 1, 0]).2 = [.fin 1, .fin (1 / 2), .fin (1 / 2)] := by
+  decide +kernel
+
 /-- **finding (code as written)**: `ss([[0]],[[1]],[[0]],[[2]])(0)`: the transfer function is the
 constant 2 (the mode is unobservable, a zero cancels the pole); the 1-state fast path answers
 `inf` where the general path (and the model) answer `nan`. -/
